@@ -269,7 +269,7 @@ fn mutate(rng: &mut Rng, mut p: Vec<u8>) -> Vec<u8> {
     p
 }
 
-fn pdu_inputs(rng: &mut Rng, thorough: bool, f: &mut dyn FnMut(&str, Vec<u8>)) {
+fn pdu_inputs(rng: &mut Rng, thorough: bool, light: bool, f: &mut dyn FnMut(&str, Vec<u8>)) {
     // exhaustive short strings
     f("both", vec![]);
     for a in 0..=255u8 {
@@ -293,9 +293,9 @@ fn pdu_inputs(rng: &mut Rng, thorough: bool, f: &mut dyn FnMut(&str, Vec<u8>)) {
             }
         }
     }
-    structured_pdus(rng, 300, 3, &mut |p| f("both", p));
+    structured_pdus(rng, if light { 270 } else { 300 }, if light { 1 } else { 3 }, &mut |p| f("both", p));
     // valid PDUs and mutations of them
-    let n = if thorough { 300_000 } else { 30_000 };
+    let n = if thorough { 300_000 } else if light { 8_000 } else { 30_000 };
     for _ in 0..n {
         let req = gen_request(rng, None);
         if let Some(b) = spec::request_bytes(&req) {
@@ -331,7 +331,7 @@ fn pdu_inputs(rng: &mut Rng, thorough: bool, f: &mut dyn FnMut(&str, Vec<u8>)) {
 // ================================================================ C08
 
 pub fn gen_c08(out: &mut Out, rng: &mut Rng, thorough: bool) {
-    pdu_inputs(rng, thorough, &mut |which, p| {
+    pdu_inputs(rng, thorough, false, &mut |which, p| {
         let h = hex(&p);
         if which == "both" || which == "req" {
             monitor_line(out, &format!("reqdec {h}"));
@@ -466,7 +466,7 @@ fn junk_stream(rng: &mut Rng, len: usize) -> Vec<u8> {
 
 pub fn gen_c03(out: &mut Out, rng: &mut Rng, thorough: bool) {
     // the three PDU surfaces
-    pdu_inputs(rng, thorough, &mut |which, p| {
+    pdu_inputs(rng, thorough, !thorough, &mut |which, p| {
         let h = hex(&p);
         if which == "both" || which == "req" {
             monitor_line(out, &format!("reqdec {h}"));
@@ -474,7 +474,7 @@ pub fn gen_c03(out: &mut Out, rng: &mut Rng, thorough: bool) {
         if which == "both" || which == "rsp" {
             monitor_line(out, &format!("rspdec {h}"));
         }
-        if which == "both" || which == "exc" {
+        if which == "exc" || (which == "both" && (p.len() <= 3 || p.len() % 16 == 0)) {
             monitor_line(out, &format!("excdec {h}"));
         }
         if p.len() <= 12 {
